@@ -32,6 +32,7 @@ func main() {
 		qlog     = flag.String("query-log", "", "write assertion queries (smt2) to this path prefix")
 		samples  = flag.Int("samples", 8, "path samples to keep")
 		trace    = flag.Bool("trace", false, "trace calls")
+		ovExtra  = flag.String("overlay-extra", "", "comma-separated virtual=real file pairs added to the overlay (instantiated sources)")
 	)
 	flag.Parse()
 	cfg := gosx.Config{
@@ -55,6 +56,17 @@ func main() {
 	overlay, err := gosx.BuildOverlay(*repo, *hdir)
 	if err != nil {
 		fatal(err)
+	}
+	for _, kv := range strings.Split(*ovExtra, ",") {
+		if kv == "" {
+			continue
+		}
+		p := strings.SplitN(kv, "=", 2)
+		b, err := os.ReadFile(p[1])
+		if err != nil {
+			fatal(err)
+		}
+		overlay[p[0]] = b
 	}
 	prog, pkg, err := gosx.Load(*repo, *pkgPat, overlay)
 	if err != nil {
